@@ -268,6 +268,11 @@ func obligationAsserts(fr *FuncResult, o *Obligation) []*Term {
 		if a == nil || seen[a] || (a.IsConst && a.B) {
 			continue
 		}
+		if o.QFOnly && hasQuantTerm(a) {
+			// reachability guards ask whether the quantifier-free part of the assumptions is already
+			// contradictory (if it is, so is the whole); quantified facts only make "sat" undecidable
+			continue
+		}
 		seen[a] = true
 		out = append(out, a)
 	}
